@@ -306,7 +306,7 @@ class Exec(ExprMixin, CallMixin):
         raise Unsupported("del statement")
 
     def st_FunctionDef(self, st, fr):
-        info = FuncInfo(f"{self.cur_func}.{st.name}", fr.module, st, kind="nested")
+        info = FuncInfo(f"{str(self.cur_func).split('~')[0]}.{st.name}", fr.module, st, kind="nested")  # (view tag dropped)
         fr.env[st.name] = VFunc(info, closure=fr)
 
     def st_If(self, st, fr):
